@@ -297,6 +297,12 @@ fn judge(ctx: &mut Ctx, paths: &[String], tname: &str, syn: Syn, prim: &str, pla
     let out = run_find(&args);
     let fold = prim == "-iregex";
     let tag = format!("{prim} {tname} {:?}", place);
+    if out.code == Ok(0) && (pats.len() + pats[0].len()) % 23 == 0 {
+        match crate::findrun::cross_check_bin(&args, &out) {
+            Ok(()) => ctx.rep.traces_validated += 1,
+            Err(e) => ctx.rep.machinery(e),
+        }
+    }
     if out.code != Ok(0) {
         if batch.len() > 1 {
             for b in batch {
